@@ -79,7 +79,10 @@ Swap ==
            /\ G' = ApplyF(G, u0, v0, U1, V1, PinnedIds)
            /\ G' # G
            /\ swaps' = swaps + 1 /\ UNCHANGED net
-Next == Swap
+(* history: the same rewiring object is handed another network (network setter) and used again;
+   nothing of the previous network may leak into the new run *)
+Rebind == /\ net' \in Nets \ {net} /\ G' = net'.g /\ swaps' = 0
+Next == Swap \/ Rebind
 Spec == Init /\ [][Next]_vars
 DepthBound == swaps <= MaxSwaps          \* CONSTRAINT; with VIEW GraphView each reachable graph is explored once
 GraphView == <<net, G>>
@@ -107,17 +110,17 @@ C11_MotifShape == \A m \in MotifIds(net.g) : SameShape(G, net.g, m)
 
 Allowed(nt, g, e) == LET x == Min2(e) y == Other(e, x) IN
                      TW(nt, g[e].top, Key(nt, x, y, g[e].top)) > 0 \/ TW(nt, g[e].top, Key(nt, y, x, g[e].top)) > 0
-C12_OnlyAllowed == [][\A e \in DOMAIN G' \ DOMAIN G : Allowed(net, G', e)]_vars
+C12_OnlyAllowed == [][net' = net => \A e \in DOMAIN G' \ DOMAIN G : Allowed(net, G', e)]_vars
 Wt(nt, g) == ProdSet(DOMAIN g, LAMBDA e : LET x == Min2(e) y == Other(e, x) IN TW(nt, g[e].top, Key(nt, x, y, g[e].top)))
 (* Metropolis ratio of every step = ratio of stationary weights (symmetric targets): top * Wt(G) = bottom * Wt(G') *)
 C12_RatioIsWeightRatio ==
-    [][\A e0 \in DOMAIN G : \A e1 \in DOMAIN G :
+    [][net' = net => \A e0 \in DOMAIN G : \A e1 \in DOMAIN G :
           LET u0 == Min2(e0) v0 == Min2(e1) U1 == Corner(G, u0, e0) V1 == Corner(G, v0, e1) IN
           (G[e0].top = G[e1].top /\ Suitable(net, G, u0, v0, U1, V1) /\ G' = ApplyF(G, u0, v0, U1, V1, PinnedIds)) =>
               Numer(net, G, u0, v0, U1, V1) * Wt(net, G) = Denom(net, G, u0, v0, U1, V1) * Wt(net, G')]_vars
 (* every accepted swap can be undone by a swap (needed for detailed balance) *)
 C12_Reversible ==
-    [][\E e0 \in DOMAIN G' : \E e1 \in DOMAIN G' :
+    [][net' = net => \E e0 \in DOMAIN G' : \E e1 \in DOMAIN G' :
           LET u0 == Min2(e0) v0 == Min2(e1) U1 == Corner(G', u0, e0) V1 == Corner(G', v0, e1) IN
           G'[e0].top = G'[e1].top /\ Suitable(net, G', u0, v0, U1, V1) /\ ApplyF(G', u0, v0, U1, V1, PinnedIds) = G]_vars
 =============================================================================
